@@ -14,7 +14,8 @@ RULE = ("breadth-first search over histories of add_* events (origin with/withou
         "canonical reference-model state with sets sorted by key (creation order of different sets is irrelevant to "
         "identities and references); plus, for 2..3 logical files with distinct set names, all interleavings of their "
         "add_* sequences (origins with explicit references, objects before/after the origin): identities, references "
-        "and origins must stay inside each logical file; non-trivial = a transition / case whose file was written and "
+        "and origins must stay inside each logical file; and 3 / 129 / 130 / 256 same-named zones or channels (copy "
+        "numbers up to the one-byte limit) with references to the copies around 127/128 and to the last one; non-trivial = a transition / case whose file was written and "
         "compared")
 ASSUMPTIONS = ["strict reader mc/rp66.py", "reference model mc/model.py (copy number = earlier same-named objects of "
                "the set; origin = explicit reference, else defining origin's, back-filled when the origin comes later)"]
@@ -114,27 +115,60 @@ def step(h, tier):
 # ---------------------------------------------------------------------------------------------------------------------
 def shards(tier):
     from mc.props import c18
-    return [s for s in c18.shards(tier) if s.get('kind') == 'lf' and s['mode'] == 'distinct']
+    return [s for s in c18.shards(tier) if s.get('kind') == 'lf' and s['mode'] == 'distinct'] + [{'kind': 'many-copies'}]
 
 
 def cases(shard, tier):
     from mc.props import c18
+    if shard.get('kind') == 'many-copies':
+        for n in (3, 129, 130, 256):
+            for kind in ('zone', 'channel'):
+                yield {'many_copies': n, 'kind': kind}
+        return
     for c in c18.cases(shard, tier):
         if c.get('wdata') is None:
             yield c
+
+
+def many_copies_spec(case):
+    """n same-named objects of one type (copy numbers 0..n-1, up to the one-byte limit 255) and references to the
+    copies around the 127/128 boundary and to the last one."""
+    n, kind = case['many_copies'], case['kind']
+    ops = [S.op_lf(), S.op_origin()]
+    picks = sorted({0, 1, min(n - 1, 126), min(n - 1, 127), min(n - 1, 128), n - 1})
+    if kind == 'zone':
+        for k in range(n):
+            ops.append(S.op_add('zone', f'Z{k}', 'SAME', description=f'copy {k}'))
+        ops.append(S.op_add('parameter', 'P', 'PARAM', zones=[{'$ref': f'Z{k}'} for k in picks], values=[float(k) for k in picks]))
+        ops.append(S.op_add('group', 'G', 'GROUP', object_list=[{'$ref': f'Z{k}'} for k in picks]))
+        ops.append(S.op_add('channel', 'C', 'CHAN', data=S.arr_spec('uint8', [2], [1, 2])))
+        ops.append(S.op_add('frame', 'F', 'FRAME', channels=[{'$ref': 'C'}]))
+    else:
+        for k in range(n):
+            ops.append(S.op_add('channel', f'C{k}', 'SAME', data=S.arr_spec('uint8', [2], [k % 250, (k + 1) % 250])))
+        for j, k in enumerate(picks):
+            ops.append(S.op_add('frame', f'F{j}', f'FRAME-{j}', channels=[{'$ref': f'C{k}'}]))
+        ops.append(S.op_add('tool', 'T', 'TOOL', channels=[{'$ref': f'C{k}'} for k in picks]))
+        # every channel must be in a frame for a warning-free file: not required by the property, so leave the rest
+    return {'sul': {'max_record_length': 8192}, 'ops': ops, 'write': {}}
 
 
 def run_case(case):
     if 'history' in case:
         return check_state(case['history'])
     from mc.props import c18
-    sp = c18.lf_spec(case)
+    if 'many_copies' in case:
+        sp = many_copies_spec(case)
+        brief, fam = case, 'many-copies'
+    else:
+        sp = c18.lf_spec(case)
+        brief, fam = c18._brief(case), 'multi-lf'
     res = S.run_spec(sp)
     viol = []
     if res['failed_at'] is not None or res['write'] != 'ok':
         why = res['status'][-1] if res['failed_at'] is not None else res['write']
-        viol.append(("C07:multi-lf:valid-rejected", f"{why} | {c18._brief(case)}"))
-        return Outcome('multi-lf:raised', viol, True)
+        viol.append((f"C07:{fam}:valid-rejected", f"{why} | {brief}"))
+        return Outcome(f'{fam}:raised', viol, True)
     try:
         lfs = R.split_logical_files(R.parse_physical(res['data']))
         m = M.Model(sp)
@@ -143,7 +177,7 @@ def run_case(case):
             errs += [(c, d) for c, d in M.check_attrs(m, mlf, lf) if c.split(':')[0] in REF_CODES]
             errs += [(c, d) for c, d in M.check_rows(m, mlf, lf) if c in ('fdata_unknown_frame', 'fdata_header')]
             for code, d in errs:
-                viol.append((f"C07:multi-lf:{code}", f"logical file {i}: {d[:250]} | {c18._brief(case)}"))
+                viol.append((f"C07:{fam}:{code}", f"logical file {i}: {d[:250]} | {brief}"))
     except R.FormatError as e:
-        viol.append((f"C07:multi-lf:unparsable:{e.code}", f"{e} | {c18._brief(case)}"))
-    return Outcome('ok:multi-lf', viol, True, digest=sha(res['data']))
+        viol.append((f"C07:{fam}:unparsable:{e.code}", f"{e} | {brief}"))
+    return Outcome('ok:many-copies' if 'many_copies' in case else 'ok:multi-lf', viol, True, digest=sha(res['data']))
